@@ -247,3 +247,87 @@ Example C10_reports_schedule_example :
   transmission_schedule roles' 9 [3; 2; 1; 0]%N 10 = Some ([0; 1; 3]%N, [10; 20; 30]%Z).
 Proof. exact reports_schedule_example. Qed.
 Print Assumptions C10_reports_schedule_example.
+
+Require Import Verif.Check.C10_check Verif.Proofs.JudgeSoundC10P.
+(* ---- the executable properties of Check/C10_check.v are the property (judge soundness) ---- *)
+
+(* determinism sinks (C10_commit / C10_exec): the sink's output is the number of distinct (Outcome + Reports) results the
+   harness saw over its R evaluations; the model's answer is the constant 1 and passes its own property *)
+Theorem C10_judge_det_model_passes : forall i, det_ok i (det_model i) = true.
+Proof. exact det_model_passes. Qed.
+Print Assumptions C10_judge_det_model_passes.
+
+(* a count that passes is the model's: exactly one distinct result (the property tests nothing else: the count is made
+   by the harness) *)
+Theorem C10_judge_det_sound : forall i o, det_ok i o = true -> o = det_model i.
+Proof. exact det_sound. Qed.
+Print Assumptions C10_judge_det_sound.
+
+(* the model's constant is the conclusion of C10_commit_outcome_deterministic / C10_commit_reports_deterministic /
+   C10_exec_outcome_deterministic: over ANY non-empty family of runs, each with its own runtime (iteration order of every
+   internal map) and its own re-ordering of the maps of the input (for reports: also of the role map and the oracle id
+   set), the results have exactly [det_model x] = 1 distinct values.
+   [distinct_count l n]: some duplicate-free list with the same members as l has length n *)
+Theorem C10_judge_det_model_commit_outcome : forall (i : commit_in) (runs : list (commit_rt * commit_in)) (x : det_in),
+  runs <> [] -> (forall rt i', In (rt, i') runs -> commit_rt_ok rt /\ commit_reorder i i') ->
+  distinct_count (map (fun r => commit_outcome_canon_rt (fst r) (snd r)) runs) (det_model x).
+Proof. exact det_model_commit_outcome. Qed.
+Print Assumptions C10_judge_det_model_commit_outcome.
+
+Theorem C10_judge_det_model_commit_reports :
+  forall roles order mult (i : commit_in) (runs : list (commit_rt * (commit_in * CommitConsensus.roles_t * list N))) (x : det_in),
+  runs <> [] ->
+  (forall rt i' roles' order', In (rt, (i', roles', order')) runs ->
+     commit_rt_ok rt /\ commit_reorder i i' /\ roles_reorder roles roles' /\ Permutation order order') ->
+  distinct_count (map (fun r => commit_reports_canon_rt (fst r) (fst (fst (snd r))) (snd (fst (snd r))) (snd (snd r)) mult) runs)
+                 (det_model x).
+Proof. exact det_model_commit_reports. Qed.
+Print Assumptions C10_judge_det_model_commit_reports.
+
+Theorem C10_judge_det_model_exec_outcome :
+  forall (hash : N -> N -> N) (zero : N) (leaf_hash : ExecReport.msg -> option N)
+         (enc_size : ExecReport.creport -> option N) (tree_gas : N -> N) (max_size max_gas : N) (nid : nonce3 -> N)
+         (i : exec_in) (runs : list (exec_rt * exec_in)) (x : det_in),
+  exec_ids_faithful nid i ->
+  runs <> [] -> (forall rt i', In (rt, i') runs -> exec_rt_ok rt /\ exec_reorder i i') ->
+  distinct_count (map (fun r => exec_outcome_canon_rt nid hash zero leaf_hash enc_size tree_gas max_size max_gas
+                                                      (fst r) (snd r)) runs) (det_model x).
+Proof. exact det_model_exec_outcome. Qed.
+Print Assumptions C10_judge_det_model_exec_outcome.
+
+(* the count is well defined, and the hypotheses are satisfiable by two different runs of the 4-oracle commit round *)
+Theorem C10_judge_distinct_count_unique : forall (A : Type) (results : list A) n m,
+  distinct_count results n -> distinct_count results m -> n = m.
+Proof. exact @distinct_count_unique. Qed.
+Print Assumptions C10_judge_distinct_count_unique.
+
+Example C10_judge_det_model_commit_example :
+  let runs := [(commit_rt_id, commit_in_rev ex_ci); (commit_rt_rev, commit_in_rev ex_ci)] in
+  (forall rt i', In (rt, i') runs -> commit_rt_ok rt /\ commit_reorder ex_ci i') /\
+  ex_ci <> commit_in_rev ex_ci /\
+  distinct_count (map (fun r => commit_outcome_canon_rt (fst r) (snd r)) runs) 1.
+Proof. exact det_model_commit_example. Qed.
+Print Assumptions C10_judge_det_model_commit_example.
+
+(* sink C16_rep_exec_roles -> rep_roles_judge = C16_check.rep_judge (Plugin.Reports of four long-lived oracles for one
+   outcome): the executable property is the one proved sound in Proofs/JudgeSoundC16P.v.  One distinct answer per input
+   (every oracle derives the same reports), and a report carries exactly the schedule of C16. *)
+Require Verif.Model.Transmit Verif.Check.C16_check Verif.Proofs.JudgeSoundC16P.
+
+Theorem C10_judge_rep_roles_model_passes : forall plugin items empty mult,
+  NoDup (map fst items) ->
+  C16_check.rep_ok (plugin, items, empty, mult) (C16_check.rep_model (plugin, items, empty, mult)) = true.
+Proof. exact (fun p it e m => JudgeSoundC16P.rep_model_passes (p, it, e, m)). Qed.
+Print Assumptions C10_judge_rep_roles_model_passes.
+
+Theorem C10_judge_rep_roles_sound : forall plugin items empty mult o,
+  NoDup (map fst items) -> C16_check.rep_ok (plugin, items, empty, mult) o = true ->
+  exists r, o = [r] /\
+    match r with
+    | Ok None => plugin = 0%N /\ empty = true
+    | Ok (Some s) => Transmit.schedule (C16_check.sup_of items) (map fst items) mult = Some s
+    | Err => (plugin = 0%N /\ empty = true) \/ Transmit.schedule (C16_check.sup_of items) (map fst items) mult = None
+    | _ => False
+    end.
+Proof. exact (fun p it e m => JudgeSoundC16P.rep_sound (p, it, e, m)). Qed.
+Print Assumptions C10_judge_rep_roles_sound.
